@@ -286,11 +286,20 @@ WebSocketMsg WebSocket::receive()
 			len = _socket.read<unsigned short>();
 		}
 		else if (len == 127)
-			len = (int)_socket.read<Long>(); // what if length larger than int?
+		{
+			Long len64 = _socket.read<Long>();
+			len = (len64 < 0 || len64 > 0x7ffffff0) ? -1 : (int)len64; // too large for an array
+		}
 
 		unsigned mask = 0;
 		if (masked)
 			_socket >> mask;
+
+		if (len < 0 || _socket.error()) // unsupported length or truncated header
+		{
+			close();
+			return msg.fix();
+		}
 
 		buffer.resize(buffer.length() + len);
 		if (len > 0)
